@@ -126,6 +126,22 @@ CHECKS.update({
             "exhaustive enumeration of (operand variant, operation, argument class) on the implementation with before/after snapshots; depth-2 copy-then-mutate exploration"),
 })
 
+CHECKS.update({
+    "C19": ("DESIGN.md 5/C19",
+            "JSON: every array of the bounded family (all value / label kinds, NaN, JSON-able and non JSON-able metadata) round-trips.  netCDF: BFS over "
+            "write programs (Dataset.write_nc, DimArray.write_nc w/a/a+, open_nc(...)[name]=array; NETCDF4 and NETCDF3_CLASSIC) through the vendored "
+            "netCDF4 stand-in on real files; after every step the file is re-read (whole and per variable) and compared with a reference file model "
+            "field by field (values, dtype kind, dims, labels, three levels of metadata); written objects must be unchanged.",
+            "netCDF half is RELATIVE TO THE STAND-IN mc/standin/netCDF4 (netCDF4 is not installable here); RefFile model in mc/props/c19.py; datetime axes not covered",
+            "exhaustive enumeration (JSON) + explicit-state BFS over write histories executed on the implementation through a model of the netCDF4 API, re-read after every step"),
+    "C20": ("DESIGN.md 5/C20",
+            "Reads: every file x variable x index menu x mode x 10 spellings compared with take() on the fully loaded array; writes: BFS over on-disk "
+            "assignment / unlimited-dimension append programs compared with put() / concatenate on the in-memory copy after every step (through the handle "
+            "and after reopening); multi-file reads compared with stack_ds / concatenate_ds of the single reads.",
+            "RELATIVE TO THE STAND-IN's orthogonal indexing and unlimited-dimension growth; in-memory take()/put() are the reference (C01-C03)",
+            "exhaustive differential enumeration of on-disk vs in-memory reads + explicit-state BFS over on-disk write histories"),
+})
+
 PENDING = ["C01", "C03", "C05", "C06", "C07", "C08", "C09", "C10", "C11", "C12", "C13", "C14", "C15", "C16", "C17", "C18", "C19", "C20"]
 
 
